@@ -51,4 +51,12 @@ def main(argv=None) -> int:
 
 
 if __name__ == '__main__':
-    sys.exit(main())
+    try:
+        sys.exit(main())
+    except SystemExit:
+        raise
+    except BaseException as ex:          # noqa: BLE001 - fail closed: a traceback anywhere is exit 2, never 1
+        import traceback
+        print(f'ANALYSIS-ERROR: internal error in the checker ({type(ex).__name__}: {ex})')
+        traceback.print_exc(file=sys.stdout)
+        sys.exit(2)
